@@ -773,8 +773,8 @@ impl Prop for C18 {
     fn spaces(&self, tier: Tier) -> Vec<Space> {
         match tier {
             Tier::Quick => vec![
-                Space { name: "gen", size: 88, exhaustive: false, chunk: 8, case_timeout_s: 120.0, what: "generated typed core-language programs x input streams x run lengths (1-16 samples)" },
-                Space { name: "corpus", size: 16, exhaustive: false, chunk: 8, case_timeout_s: 120.0, what: "shipped sources without plugin calls and literal/operator mutants of them x run lengths" },
+                Space { name: "gen", size: 320, exhaustive: false, chunk: 8, case_timeout_s: 120.0, what: "generated typed core-language programs x input streams x run lengths (1-16 samples)" },
+                Space { name: "corpus", size: 64, exhaustive: false, chunk: 8, case_timeout_s: 120.0, what: "shipped sources without plugin calls and literal/operator mutants of them x run lengths" },
             ],
             Tier::Thorough => vec![
                 Space { name: "gen", size: 5000, exhaustive: false, chunk: 8, case_timeout_s: 120.0, what: "generated typed core-language programs x input streams x run lengths (1-16 samples)" },
